@@ -434,4 +434,32 @@ theorem run_Keep (k v : Nat) (S : List Nat) (c : Cache) (ops : List Op) (hi : In
     refine ih _ (step_Inv c op hi) (by rw [step_cap]; exact hcap) ?_ (fun o ho => hop o (by simp [ho]))
     exact step_Keep k v S c op hi hcap hk (hop op (by simp))
 
+theorem fold_some_was_inserted (ops : List Op) (m0 : Nat → Option Nat) (k v : Nat)
+    (h : (ops.foldl specStep m0) k = some v) : Op.insert k v ∈ ops ∨ m0 k = some v := by
+  induction ops generalizing m0 with
+  | nil => exact Or.inr h
+  | cons op rest ih =>
+    simp only [List.foldl_cons] at h
+    rcases ih _ h with h' | h'
+    · exact Or.inl (List.mem_cons_of_mem _ h')
+    · cases op with
+      | insert k' v' =>
+        simp only [specStep] at h'
+        by_cases hk : (k == k') = true
+        · simp only [hk, if_true, Option.some.injEq] at h'
+          have : k = k' := by simpa using hk
+          subst this; subst h'
+          exact Or.inl (by simp)
+        · simp only [hk, if_false, Bool.false_eq_true] at h'
+          exact Or.inr h'
+      | get k' =>
+        simp only [specStep] at h'
+        exact Or.inr h'
+      | remove k' =>
+        simp only [specStep] at h'
+        by_cases hk : (k == k') = true
+        · simp [hk] at h'
+        · simp only [hk, if_false, Bool.false_eq_true] at h'
+          exact Or.inr h'
+
 end Rain.Lru
